@@ -18,6 +18,7 @@ type vhFeeder struct {
 	sink    *vhSink
 	lines   []int // end offsets of complete lines in data
 	lineWise bool
+	errWithData bool
 }
 
 func (f *vhFeeder) Read(p []byte) (int, error) {
@@ -39,6 +40,13 @@ func (f *vhFeeder) Read(p []byte) (int, error) {
 	}
 	n := copy(p, f.data[f.pos:end])
 	f.pos += n
+	if f.errWithData && f.pos == len(f.data) {
+		// the end is signalled together with the last data
+		if f.failure {
+			return n, vhErrBoom
+		}
+		return n, io.EOF
+	}
 	return n, nil
 }
 
@@ -274,8 +282,10 @@ func vhResume(sk int, _ string) {
 //verif:prop C10
 //verif:param sk 1,3,6
 //verif:param cut quick=0..160 thorough=0..400
-//verif:param failure 0..1
+//verif:param failure 0..3
 func VH_C10_Cut(sk, cut, failure int) {
+	withData := failure >= 2 // 2: EOF with the last data, 3: failure with the last data
+	failure &= 1
 	sp := vhSkeleton(sk)
 	if cut > len(sp.data) {
 		return
@@ -283,7 +293,7 @@ func VH_C10_Cut(sk, cut, failure int) {
 	full := &vhFeeder{data: sp.data}
 	wf := &vhSink{}
 	sf, _, _ := ScanSnapshot(full, wf, &Opts{})
-	part := &vhFeeder{data: sp.data[:cut], failure: failure == 1}
+	part := &vhFeeder{data: sp.data[:cut], failure: failure == 1, errWithData: withData}
 	wp := &vhSink{}
 	scut, suffix, err := ScanSnapshot(part, wp, &Opts{})
 	vReach("cut stream scanned")
